@@ -42,7 +42,9 @@ def run(tier, opts):
         summ = common.collect_replay_results(ck, outp, f"[{b}] real table_decommit disagrees with the spec",
                                              lambda r: f"replay:{b}:" + json.dumps([r["case"]["ncols"], r["case"]["height"], r["case"]["nvf"], r["case"]["idx"], r["case"]["corrupt"]]))
         total += summ["cases"]
-        common.validate_trace(ck, "Trace_Table", trace, f"[{b}] table decommitment", f"trace:{b}")
+        ok = common.validate_trace(ck, "Trace_Table", trace, f"[{b}] table decommitment", f"trace:{b}")
+        if ok and (opts.get("selftest") or tier == "thorough") and b == builds[0]:
+            common.selftest_trace(ck, "Trace_Table", trace, [("tc.rows", "mont"), ("tc.rows", "hash"), ("tc.rows", "idx"), ("tc.begin", "bottom_friendly"), ("tc.result", "ok"), ("vc.begin", "val"), ("tc.rows", None)])
     for c in cases:
         ck.case(json.dumps([c["ncols"], c["height"], c["nvf"], c["idx"], c["corrupt"]]), c["ncols"] >= 2 or c["height"] >= 1)
     ck.extra["behaviours_replayed_on_impl"] = total
